@@ -76,7 +76,7 @@ LeafC == {"str", "int", "float", "bool", "none"}
 UpperCase == <<"A","B","C","D","E","F","G","H","I","J","K","L","M","N","O","P","Q","R","S","T","U","V","W","X","Y","Z">>
 LowerCase == <<"a","b","c","d","e","f","g","h","i","j","k","l","m","n","o","p","q","r","s","t","u","v","w","x","y","z">>
 Lc(c) == IF \E i \in 1..26 : UpperCase[i] = c THEN LowerCase[CHOOSE i \in 1..26 : UpperCase[i] = c] ELSE c
-LcText(t) == [i \in 1..Len(t) |-> Lc(t[i])]
+LcText(t) == Strict([i \in 1..Len(t) |-> Lc(t[i])])
 
 (***************************************************************************)
 (* Python equality on values ( == , `in` ): numbers compare across kinds   *)
@@ -145,8 +145,8 @@ WriteScalar(fmt, x) ==
     [] OTHER         -> Tok("unrepresentable", << >>)                                             \* an Enum member, a set ...: RepresenterError / TypeError
 RECURSIVE WriteDoc(_, _)
 WriteDoc(fmt, x) ==
-  IF x.k \in {"list", "tuple"} THEN ListV([i \in 1..Len(x.v) |-> WriteDoc(fmt, x.v[i])])      \* both dumpers write a tuple as a list
-  ELSE IF x.k = "dict" THEN DictV([i \in 1..Len(x.v) |-> <<WriteScalar(fmt, x.v[i][1]), WriteDoc(fmt, x.v[i][2])>>])
+  IF x.k \in {"list", "tuple"} THEN ListV(Strict([i \in 1..Len(x.v) |-> WriteDoc(fmt, x.v[i])]))      \* both dumpers write a tuple as a list
+  ELSE IF x.k = "dict" THEN DictV(Strict([i \in 1..Len(x.v) |-> <<WriteScalar(fmt, x.v[i][1]), WriteDoc(fmt, x.v[i][2])>>]))
   ELSE WriteScalar(fmt, x)
 \* yaml_load with jsonargparse's loader, also used for JSON text (parser_mode yaml): _loaders_dumpers.py:85-96
 ReadScalar(d) ==
@@ -160,14 +160,14 @@ ReadScalar(d) ==
   IN IF x.k = "error" THEN ErrV("yaml-construct") ELSE x
 RECURSIVE ReadDoc(_)
 ReadDoc(d) ==
-  IF d.k = "list" THEN LET xs == [i \in 1..Len(d.v) |-> ReadDoc(d.v[i])] IN Lift(xs, ListV(xs))
-  ELSE IF d.k = "dict" THEN LET ks == [i \in 1..Len(d.v) |-> IF TokStyle(d.v[i][1]) = "json" /\ ReadJsonKey(TokText(d.v[i][1])).k = "error"
-                                                             THEN ErrV("json-key") ELSE ReadScalar(d.v[i][1])]
-                                xs == [i \in 1..Len(d.v) |-> ReadDoc(d.v[i][2])]
+  IF d.k = "list" THEN LET xs == Strict([i \in 1..Len(d.v) |-> ReadDoc(d.v[i])]) IN Lift(xs, ListV(xs))
+  ELSE IF d.k = "dict" THEN LET ks == Strict([i \in 1..Len(d.v) |-> IF TokStyle(d.v[i][1]) = "json" /\ ReadJsonKey(TokText(d.v[i][1])).k = "error"
+                                                             THEN ErrV("json-key") ELSE ReadScalar(d.v[i][1])])
+                                xs == Strict([i \in 1..Len(d.v) |-> ReadDoc(d.v[i][2])])
                             IN \* two keys that were both read as floats may be the SAME float (1e3, 1E3): the mapping then
                                \* keeps one item; which floats are equal is Python's business
                                IF \E i, j \in 1..Len(ks) : i # j /\ ks[i].k = "float" /\ ks[j].k = "float" THEN Unsure
-                               ELSE Lift(ks \o xs, DictV([i \in 1..Len(d.v) |-> <<ks[i], xs[i]>>]))
+                               ELSE Lift(ks \o xs, DictV(Strict([i \in 1..Len(d.v) |-> <<ks[i], xs[i]>>])))
   ELSE ReadScalar(d)
 \* the whole scalar layer: tree -> text -> tree.  ideal = TRUE: every scalar is read back as written.
 ThroughText(fmt, x, ideal) == IF ideal THEN x ELSE ReadDoc(WriteDoc(fmt, x))
@@ -249,23 +249,23 @@ Adapt(t, x, orig, sd, li) ==
     [] t.c = "union" -> UnionTrial(SortSubtypes(t.p, x), 1, x, orig, sd, FALSE, FALSE)   \* :833-847
     [] t.c = "list" ->                                                          \* :866-899 (no append, no path)
          IF x.k # "list" THEN ErrV("expected-list")
-         ELSE LET ys == [i \in 1..Len(x.v) |-> Adapt(t.p[1], x.v[i], orig, sd, TRUE)] IN Lift(ys, ListV(ys))   \* :899 list_item=True
+         ELSE LET ys == Strict([i \in 1..Len(x.v) |-> Adapt(t.p[1], x.v[i], orig, sd, TRUE)]) IN Lift(ys, ListV(ys))   \* :899 list_item=True
     [] t.c \in {"tuple", "tuplee", "set"} ->                                    \* :850-863
          IF x.k \notin SeqKinds THEN ErrV("expected-tuple-or-set")
          ELSE IF t.c = "tuple" /\ Len(x.v) # Len(t.p) THEN ErrV("tuple-arity")
-         ELSE LET ys == [i \in 1..Len(x.v) |-> Adapt(t.p[IF t.c = "tuple" THEN i ELSE 1], x.v[i], orig, sd, FALSE)]
+         ELSE LET ys == Strict([i \in 1..Len(x.v) |-> Adapt(t.p[IF t.c = "tuple" THEN i ELSE 1], x.v[i], orig, sd, FALSE)])
               IN Lift(ys, IF t.c = "set" THEN SetV(ys) ELSE TupleV(ys))
     [] t.c = "dict" ->                                                          \* :902-934
          IF x.k # "dict" THEN ErrV("expected-dict")
-         ELSE LET ks == [i \in 1..Len(x.v) |->
+         ELSE LET ks == Strict([i \in 1..Len(x.v) |->
                           IF t.p[1].c = "int"                                    \* :913-915  cast = int
                           THEN (IF x.v[i][1].k = "int" THEN x.v[i][1]
                                 ELSE IF x.v[i][1].k = "str" /\ IntText(x.v[i][1].v) THEN IntV(x.v[i][1].v)
                                 ELSE IF x.v[i][1].k = "str" /\ ~FullMatch(Cat(<<OSign, Plus(DU)>>), Strip(x.v[i][1].v)) THEN ErrV("int-key")
                                 ELSE Unsure)
-                          ELSE x.v[i][1]]                                        \* keys of any other type are NOT checked
-                  ys == [i \in 1..Len(x.v) |-> Adapt(t.p[2], x.v[i][2], orig, sd, FALSE)]
-              IN Lift(ks \o ys, DictV([i \in 1..Len(x.v) |-> <<ks[i], ys[i]>>]))
+                          ELSE x.v[i][1]])                                        \* keys of any other type are NOT checked
+                  ys == Strict([i \in 1..Len(x.v) |-> Adapt(t.p[2], x.v[i][2], orig, sd, FALSE)])
+              IN Lift(ks \o ys, DictV(Strict([i \in 1..Len(x.v) |-> <<ks[i], ys[i]>>])))
     [] t.c = "dc" -> AdaptDC(t, x, sd \/ li)                                     \* :1032-1050
     [] OTHER -> Unsure
 
@@ -286,10 +286,10 @@ UnionTrial(ts, n, x, orig, sd, hadOrig, lastIsOrig) ==
 AdaptDC(t, x, fill) ==
   IF x.k \notin {"dict", "ns"} THEN ErrV("expected-dict-for-dataclass")
   ELSE LET key(f) == IF x.k = "dict" THEN Str(t.p[f][1]) ELSE t.p[f][1]
-           given  == SelectSeq([f \in 1..Len(t.p) |-> f], LAMBDA f : HasKey(x, key(f)) \/ fill)
-           ys     == [n \in 1..Len(given) |-> IF HasKey(x, key(given[n])) THEN LoadThenAdapt(t.p[given[n]][2], GetKey(x, key(given[n])), fill) ELSE t.p[given[n]][3]]
+           given  == SelectSeq(Strict([f \in 1..Len(t.p) |-> f]), LAMBDA f : HasKey(x, key(f)) \/ fill)
+           ys     == Strict([n \in 1..Len(given) |-> IF HasKey(x, key(given[n])) THEN LoadThenAdapt(t.p[given[n]][2], GetKey(x, key(given[n])), fill) ELSE t.p[given[n]][3]])
        IN IF \E i \in 1..Len(x.v) : ~\E f \in 1..Len(t.p) : x.v[i][1] = key(f) THEN ErrV("unknown-key")
-          ELSE Lift(ys, NSV([n \in 1..Len(given) |-> <<t.p[given[n]][1], ys[n]>>]))
+          ELSE Lift(ys, NSV(Strict([n \in 1..Len(given) |-> <<t.p[given[n]][1], ys[n]>>])))
 
 \* ActionTypeHint._check_type (:554-611): parse_value_or_config on a str (_util.py:144-147: anything but a str replaces
 \* it: null, a list, a dict), adapt, and on failure once more with the original str.
@@ -344,13 +344,13 @@ Ser(t, v, o) ==
          IF \E i \in 1..Len(ts) : SerOk(ts[i], v)
          THEN Ser(ts[CHOOSE i \in 1..Len(ts) : SerOk(ts[i], v) /\ \A j \in 1..(i - 1) : ~SerOk(ts[j], v)], v, o)
          ELSE ErrV("serialize-no-member")
-    [] t.c = "list"  -> LET ys == [i \in 1..Len(v.v) |-> Ser(t.p[1], v.v[i], o)] IN Lift(ys, ListV(ys))
-    [] t.c = "tuple" -> LET ys == [i \in 1..Len(v.v) |-> Ser(t.p[i], v.v[i], o)] IN Lift(ys, ListV(ys))        \* :853 list(val), stays a list (:862)
-    [] t.c \in {"tuplee", "set"} -> LET ys == [i \in 1..Len(v.v) |-> Ser(t.p[1], v.v[i], o)] IN Lift(ys, ListV(ys))
+    [] t.c = "list"  -> LET ys == Strict([i \in 1..Len(v.v) |-> Ser(t.p[1], v.v[i], o)]) IN Lift(ys, ListV(ys))
+    [] t.c = "tuple" -> LET ys == Strict([i \in 1..Len(v.v) |-> Ser(t.p[i], v.v[i], o)]) IN Lift(ys, ListV(ys))        \* :853 list(val), stays a list (:862)
+    [] t.c \in {"tuplee", "set"} -> LET ys == Strict([i \in 1..Len(v.v) |-> Ser(t.p[1], v.v[i], o)]) IN Lift(ys, ListV(ys))
     [] t.c = "dict"  ->                                                         \* :913-915  cast = str
-         LET ks == [i \in 1..Len(v.v) |-> IF t.p[1].c = "int" /\ v.v[i][1].k = "int" THEN Str(v.v[i][1].v) ELSE v.v[i][1]]
-             ys == [i \in 1..Len(v.v) |-> Ser(t.p[2], v.v[i][2], o)]
-         IN Lift(ys, DictV([i \in 1..Len(v.v) |-> <<ks[i], ys[i]>>]))
+         LET ks == Strict([i \in 1..Len(v.v) |-> IF t.p[1].c = "int" /\ v.v[i][1].k = "int" THEN Str(v.v[i][1].v) ELSE v.v[i][1]])
+             ys == Strict([i \in 1..Len(v.v) |-> Ser(t.p[2], v.v[i][2], o)])
+         IN Lift(ys, DictV(Strict([i \in 1..Len(v.v) |-> <<ks[i], ys[i]>>])))
     [] t.c = "dc"    ->                                                         \* :1041  load_value(parser.dump(val, **dump_kwargs))
          LET inner == DumpFields(t.p, v, o) IN
          IF Bad(inner) THEN inner ELSE ThroughText("yaml", inner, o.ideal)      \* a NESTED yaml round trip, whatever the outer format
@@ -358,9 +358,9 @@ Ser(t, v, o) ==
 \* the dict a (nested) parser dumps for a dataclass value: one entry per field, None entries dropped under skip_none
 \* (_core.py:808-833)
 DumpFields(fields, v, o) ==
-  LET keep == SelectSeq([f \in 1..Len(fields) |-> f], LAMBDA f : HasKey(v, fields[f][1]) /\ ~(o.skipnone /\ Field(v, fields[f][1]).k = "null"))
-      ys   == [n \in 1..Len(keep) |-> LET val == Field(v, fields[keep[n]][1]) IN IF val.k = "null" THEN val ELSE Ser(fields[keep[n]][2], val, o)]
-  IN Lift(ys, DictV([n \in 1..Len(keep) |-> <<Str(fields[keep[n]][1]), ys[n]>>]))
+  LET keep == SelectSeq(Strict([f \in 1..Len(fields) |-> f]), LAMBDA f : HasKey(v, fields[f][1]) /\ ~(o.skipnone /\ Field(v, fields[f][1]).k = "null"))
+      ys   == Strict([n \in 1..Len(keep) |-> LET val == Field(v, fields[keep[n]][1]) IN IF val.k = "null" THEN val ELSE Ser(fields[keep[n]][2], val, o)])
+  IN Lift(ys, DictV(Strict([n \in 1..Len(keep) |-> <<Str(fields[keep[n]][1]), ys[n]>>])))
 
 Opts(ideal, skipnone) == [ideal |-> ideal, skipnone |-> skipnone]
 
@@ -427,22 +427,22 @@ HazardsAreReal(t, v, fmt)       == (LeafHazards(t, v, fmt) # {} /\ ~IsUnsure(Alg
 (***************************************************************************)
 \* nest the kept <<path, tree>> pairs (paths of length 1 or 2) into a dict, in first-seen order (Namespace.as_dict); the
 \* Namespace of a GROUP stays (as an empty dict) when all its entries were removed: `heads` lists every head name
-Heads(entries) == LET hs == [i \in 1..Len(entries) |-> entries[i].p[1]] IN
-                  SelectSeq([i \in 1..Len(hs) |-> i], LAMBDA i : \A j \in 1..(i - 1) : hs[j] # hs[i])
+Heads(entries) == LET hs == Strict([i \in 1..Len(entries) |-> entries[i].p[1]]) IN
+                  SelectSeq(Strict([i \in 1..Len(hs) |-> i]), LAMBDA i : \A j \in 1..(i - 1) : hs[j] # hs[i])
 NestPairs(entries, ps) ==
   LET firsts == Heads(entries) IN
   DictV(SelectSeq(
-    [n \in 1..Len(firsts) |->
+    Strict([n \in 1..Len(firsts) |->
        LET e == entries[firsts[n]] IN
        IF Len(e.p) = 1
        THEN (IF \E m \in 1..Len(ps) : ps[m][1] = e.p THEN <<Str(e.p[1]), ps[CHOOSE m \in 1..Len(ps) : ps[m][1] = e.p][2]>> ELSE <<Str(e.p[1]), ErrV("dropped")>>)
        ELSE LET mine == SelectSeq(ps, LAMBDA q : Len(q[1]) = 2 /\ q[1][1] = e.p[1])
-            IN <<Str(e.p[1]), DictV([m \in 1..Len(mine) |-> <<Str(mine[m][1][2]), mine[m][2]>>])>>],
+            IN <<Str(e.p[1]), DictV(Strict([m \in 1..Len(mine) |-> <<Str(mine[m][1][2]), mine[m][2]>>]))>>]),
     LAMBDA kv : kv[2].k # "error"))
 \* _dump_cleanup_actions (_core.py:808-833) over a sequence of entries and their values
 CleanEntries(entries, vals, o) ==
-  LET keep == SelectSeq([i \in 1..Len(entries) |-> i], LAMBDA i : ~(o.skipnone /\ vals[i].k = "null")) IN      \* :815-817
-  [n \in 1..Len(keep) |-> <<entries[keep[n]].p, IF vals[keep[n]].k = "null" THEN vals[keep[n]] ELSE Ser(entries[keep[n]].t, vals[keep[n]], o)>>]   \* :824-833
+  LET keep == SelectSeq(Strict([i \in 1..Len(entries) |-> i]), LAMBDA i : ~(o.skipnone /\ vals[i].k = "null")) IN      \* :815-817
+  Strict([n \in 1..Len(keep) |-> <<entries[keep[n]].p, IF vals[keep[n]].k = "null" THEN vals[keep[n]] ELSE Ser(entries[keep[n]].t, vals[keep[n]], o)>>])   \* :824-833
 EntriesBad(ps) == \E i \in 1..Len(ps) : Bad(ps[i][2])
 \* cfg.as_dict() after the clean-up: the selector key of the sub-commands is POPPED (:818-819), the chosen sub-command's
 \* values sit under its name
@@ -457,15 +457,15 @@ CfgTree(shape, cfg, o) ==
 RECURSIVE DeleteDefaults(_, _)
 DeleteDefaults(sub, dfl) ==
   DictV(SelectSeq(
-    [i \in 1..Len(sub.v) |->
+    Strict([i \in 1..Len(sub.v) |->
        LET key == sub.v[i][1]
            val == sub.v[i][2]
        IN IF HasKey(dfl, key) /\ ~PyEq(val, GetKey(dfl, key)) /\ val.k = "dict" /\ GetKey(dfl, key).k = "dict"
           THEN <<key, DeleteDefaults(val, GetKey(dfl, key))>>                    \* :851-852
-          ELSE <<key, val>>],
+          ELSE <<key, val>>]),
     LAMBDA e : ~(HasKey(dfl, e[1]) /\ PyEq(GetKey(sub, e[1]), GetKey(dfl, e[1])))))   \* :849-850
 CfgV(top, sel, sub) == [k |-> "cfg", top |-> top, sel |-> sel, sub |-> sub]
-DefaultsCfg(shape) == CfgV([i \in 1..Len(shape.top) |-> shape.top[i].d], 0, << >>)   \* get_defaults(): no sub-command chosen
+DefaultsCfg(shape) == CfgV(Strict([i \in 1..Len(shape.top) |-> shape.top[i].d]), 0, << >>)   \* get_defaults(): no sub-command chosen
 \* ArgumentParser.dump (_core.py:754-806)
 DumpTree(shape, cfg, fl) ==
   LET o    == Opts(fl.ideal, fl.skipnone)
@@ -477,7 +477,7 @@ DumpTree(shape, cfg, fl) ==
 \* parse_string / parse_path / --config on the text of a dump
 LookupPath(tree, p) == IF Len(p) = 1 THEN GetKey(tree, Str(p[1])) ELSE GetKey(GetKey(tree, Str(p[1])), Str(p[2]))
 HasPath(tree, p) == HasKey(tree, Str(p[1])) /\ (Len(p) = 1 \/ (GetKey(tree, Str(p[1])).k = "dict" /\ HasKey(GetKey(tree, Str(p[1])), Str(p[2]))))
-ParseEntries(entries, tree) == [i \in 1..Len(entries) |-> IF HasPath(tree, entries[i].p) THEN AcceptD(entries[i].t, LookupPath(tree, entries[i].p), entries[i].d) ELSE entries[i].d]
+ParseEntries(entries, tree) == Strict([i \in 1..Len(entries) |-> IF HasPath(tree, entries[i].p) THEN AcceptD(entries[i].t, LookupPath(tree, entries[i].p), entries[i].d) ELSE entries[i].d])
 \* _ActionSubCommands.get_subcommands (_actions.py:691-744) on a config without the selector key: the first
 \* sub-command under whose name at least one value arrived; none: error when required, no sub-command otherwise
 SubPresent(shape, tree, n) ==          \* a Namespace exists under the name only if the value of one of its arguments arrived (an empty group does not count)
@@ -499,8 +499,8 @@ SameCfg(a, b) == a.k = "cfg" /\ b.k = "cfg" /\ a.sel = b.sel /\ SameSeq(a.top, b
 \* Ref: what the re-parse of a dump must give.  skip_none may only lose None entries (they come back as the default).
 Expected(shape, cfg, fl) ==
   IF ~fl.skipnone THEN cfg
-  ELSE CfgV([i \in 1..Len(cfg.top) |-> IF cfg.top[i].k = "null" THEN shape.top[i].d ELSE cfg.top[i]], cfg.sel,
-            [i \in 1..Len(cfg.sub) |-> IF cfg.sub[i].k = "null" THEN shape.subs[cfg.sel][2][i].d ELSE cfg.sub[i]])
+  ELSE CfgV(Strict([i \in 1..Len(cfg.top) |-> IF cfg.top[i].k = "null" THEN shape.top[i].d ELSE cfg.top[i]]), cfg.sel,
+            Strict([i \in 1..Len(cfg.sub) |-> IF cfg.sub[i].k = "null" THEN shape.subs[cfg.sel][2][i].d ELSE cfg.sub[i]]))
 CfgRoundTrip(shape, cfg, fmt, fl) == LET r == ReparseCfg(shape, cfg, fmt, fl) IN ~Bad(r) /\ SameCfg(r, Expected(shape, cfg, fl))
 
 \* ---- named deviations at the configuration level
